@@ -25,7 +25,7 @@ from ..objectmodel.builder import (
 from ..util import hasha
 
 
-__compiled_grammar_cache: dict[tuple[str | None, str, int], g.Grammar] = {}
+__compiled_grammar_cache: dict[tuple[str | None, str], g.Grammar] = {}
 
 
 def boot_grammar() -> g.Grammar:
@@ -62,13 +62,6 @@ def compile(
         )
     cache = __compiled_grammar_cache
 
-    key = (name, hasha(grammar), id(semantics))
-    if key in cache:
-        model = cache[key]
-    else:
-        gen = TatSuParserGenerator(name, **settings)
-        model = cache[key] = gen.parse(grammar, **settings)
-
     asmodel = not semantics and (
         asmodel
         or isinstance(builderconfig, BuilderConfig)
@@ -76,6 +69,19 @@ def compile(
         or typedefs is not None
         or constructors is not None
     )
+
+    # NOTE: only what depends on (name, grammar) alone is shared between calls:
+    #   a model that gets semantics assigned below, or that was compiled under
+    #   settings, is built anew so the cached one is never altered
+    cacheable = semantics is None and not asmodel and not settings
+    key = (name, hasha(grammar))
+    if cacheable and key in cache:
+        model = cache[key]
+    else:
+        gen = TatSuParserGenerator(name, **settings)
+        model = gen.parse(grammar, **settings)
+        if cacheable:
+            cache[key] = model
     if semantics is not None:
         model.semantics = semantics
     elif asmodel:
